@@ -9,11 +9,17 @@ def repo_hash():
     return tree_hash([os.path.join(REPO, "src"), os.path.join(REPO, "include"),
                       os.path.join(REPO, "CMakeLists.txt"), os.path.join(REPO, "cmake")])
 
-def build_repo():
+VARIANTS = {
+    None: [],
+    # no runtime dispatch to AVX512/POPCNT code paths: the portable pre-sieve, bit decoding and popcount
+    "portable": ["-DWITH_MULTIARCH=OFF"],
+}
+
+def build_repo(variant=None):
     """cmake build of /repo's working tree with hooks+asserts+sanitizers; cached by content hash.
     returns (dir, error or None)"""
     h = repo_hash()[:16]
-    d = os.path.join(WORK, "repo-" + h)
+    d = os.path.join(WORK, ("repo-" if variant is None else f"var{variant}-") + h)
     with Lock("repo-build"):
         if os.path.exists(os.path.join(d, ".ok")):
             return d, None
@@ -21,7 +27,7 @@ def build_repo():
             with open(os.path.join(d, ".failed")) as f:
                 return d, f.read()
         # prune older builds (disk space)
-        for old in glob.glob(os.path.join(WORK, "repo-*")):
+        for old in glob.glob(os.path.join(WORK, "repo-*" if variant is None else f"var{variant}-*")):
             if old != d:
                 shutil.rmtree(old, ignore_errors=True)
         shutil.rmtree(d, ignore_errors=True)
@@ -30,7 +36,7 @@ def build_repo():
         rc, out, err = run(["cmake", "-G", "Ninja", "-S", REPO, "-B", d,
                             "-DCMAKE_BUILD_TYPE=RelWithDebInfo", "-DBUILD_SHARED_LIBS=OFF",
                             "-DBUILD_STATIC_LIBS=ON", "-DBUILD_TESTS=OFF", "-DBUILD_PRIMESIEVE=ON",
-                            f"-DCMAKE_CXX_FLAGS={CXXFLAGS}", f"-DCMAKE_EXE_LINKER_FLAGS={SAN_FLAGS}"])
+                            f"-DCMAKE_CXX_FLAGS={CXXFLAGS}", f"-DCMAKE_EXE_LINKER_FLAGS={SAN_FLAGS}"] + VARIANTS[variant])
         if rc == 0:
             rc, out, err = run(["cmake", "--build", d, "-j16"])
         if rc != 0:
